@@ -44,7 +44,12 @@ func getJump(node *shared.TreeNode) []string {
 		return []string{node.Name}
 	}
 	if len(node.Children) == 1 {
-		return append([]string{node.Name}, getJump(node.FirstChild())...)
+		rest := getJump(node.FirstChild())
+		if len(rest) == 0 {
+			// the chain ends in a fork: no jump, the subtree is printed node by node
+			return []string{}
+		}
+		return append([]string{node.Name}, rest...)
 	}
 	return []string{}
 }
